@@ -102,6 +102,12 @@ def gen_case(rng):
         vars_, _ = sc.load(case)
         if not _ok_design(vars_):
             continue
+        # tiny-weight regime (all weights x 2^-40, exact): the scale std-err divides a rounding-level std-dev (~1e-15 where the exact value
+        # is 0) by sqrt(a margin of ~1e-11), which lifts float cancellation to ~1e-9 against the exact model - rounding, not a defect
+        # (DESIGN section 10); c10.py keeps that regime at library level, where both sides are floats
+        ws = [Fraction(w) for w, _ in case["survey"]]
+        if case.get("weighted") and ws and max(ws) < Fraction(1, 2 ** 20):
+            continue
         # keep multiple-response designs well represented (the generator's sort / prune families are CAT x CAT)
         if not any(v.kind == "mr" for v in vars_[-2:]) and rng.random() < 0.45:
             continue
